@@ -20,6 +20,7 @@ from orquesta import statuses as S
 
 COMPLETED = (S.SUCCEEDED, S.FAILED, S.EXPIRED, S.ABANDONED, S.CANCELED)
 RESTING = (S.SUCCEEDED, S.FAILED, S.CANCELED, S.PAUSED)
+REQUEST_KINDS = (S.RUNNING, S.PAUSING, S.PAUSED, S.RESUMING, S.CANCELING, S.CANCELED, S.FAILED, S.SUCCEEDED)
 LIFECYCLE_REJECTIONS = (exc.InvalidWorkflowStatusTransition, exc.InvalidStatusTransition)
 
 
@@ -55,6 +56,9 @@ class Monitor(object):
         pass
 
     def after_offers(self, env, tasks):
+        pass
+
+    def on_request(self, env, kind, rejected, before):
         pass
 
     def on_started(self, env, act):
@@ -94,8 +98,10 @@ class Policy(object):
         self.by_task = False
         self.bits = False
         self.tokens = False
-        self.control = None  # None | "pause" | "cancel" | "either"
-        self.control_as = {"pause": S.PAUSING, "cancel": S.CANCELING}
+        self.control = None  # None | "pause" | "cancel" | "either" (one of them) | "both" (independent positions)
+        self.requests = False  # one extra status request of a symbolic kind at a symbolic boundary
+        self.pause_as_paused = False
+        self.cancel_as_canceled = False
         self.resume = True
         self.crash = False
         self.order = True
@@ -135,11 +141,16 @@ class Env(object):
         self.cancel_req = False
         self.ever_pause_req = False
         self.step = 0
+        self.bnd = 0
         self.n_exec = 0
         self.last_offer = []
         self.crashes = 0
         self.rejected = 0
         self.counters = {}
+        self.extra_req_done = False
+        self.ctl_done = False
+        self.script = []
+        self.cancel_from = None
         self.match_ctx = False
         self.held = []
 
@@ -188,6 +199,8 @@ class Env(object):
 
     def request(self, status, expect=()):
         self.log.append("REQ:" + status)
+        if status in (S.CANCELING, S.CANCELED) and not self.cancel_req:
+            self.cancel_from = self.status()
         self.api("request_workflow_status", self.c.request_workflow_status, status, expect=expect)
         if status in (S.PAUSING, S.PAUSED):
             self.pause_req = True
@@ -282,6 +295,7 @@ class Env(object):
     def report(self, idx, status, result=None):
         act = self.inflight.pop(idx)
         self.log.append("-%s:%s" % (act.label(), status[:4]))
+        self.script.append((act.label(), act.visit, status, result))
         if act.item is None:
             ev = events.ActionExecutionEvent(status, result=result)
             desc = ["action", status, jsonable(result)]
@@ -337,16 +351,41 @@ class Env(object):
     def boundary(self):
         """The point between two provider events: control requests and crashes land here."""
         p = self.policy
-        st = self.status()
-        if p.control and not self.pause_req and not self.cancel_req and not self.ever_pause_req:
-            if st in (S.RUNNING, S.RESUMING):
-                if self.ch.lazy("ctl_at").is_(self.step):
-                    kind = p.control
-                    if kind == "either":
-                        kind = "pause" if self.ch.flag("ctl_pause") else "cancel"
-                    self.request(p.control_as[kind])
+        b = self.bnd
+        self.bnd += 1
+        if p.control in ("pause", "cancel", "either") and not self.ctl_done:
+            if self.ch.lazy("ctl_at").is_(b):
+                self.ctl_done = True
+                kind = p.control
+                if kind == "either":
+                    kind = "pause" if self.ch.flag("ctl_is_pause") else "cancel"
+                st = self.status()
+                if kind == "pause" and st in (S.RUNNING, S.RESUMING):
+                    self.request(S.PAUSED if p.pause_as_paused else S.PAUSING)
                     self.offers()
-        if p.crash and self.ch.flag("crash%d" % self.step):
+                elif kind == "cancel" and st in (S.RUNNING, S.PAUSING, S.PAUSED, S.RESUMING):
+                    self.request(S.CANCELED if p.cancel_as_canceled else S.CANCELING)
+                    self.offers()
+        if p.control == "both":
+            # a pause and a cancel at independent positions (cancel from running, pausing, paused, resuming)
+            if not self.ever_pause_req and not self.cancel_req and self.status() in (S.RUNNING, S.RESUMING):
+                if self.ch.lazy("pause_at").is_(b):
+                    self.request(S.PAUSED if p.pause_as_paused else S.PAUSING)
+                    self.offers()
+            if not self.cancel_req and self.status() in (S.RUNNING, S.PAUSING, S.PAUSED, S.RESUMING):
+                if self.ch.lazy("cancel_at").is_(b):
+                    self.request(S.CANCELED if p.cancel_as_canceled else S.CANCELING)
+                    self.offers()
+        if p.requests and not self.extra_req_done and self.ch.lazy("req_at").is_(b):
+            self.extra_req_done = True
+            kind = REQUEST_KINDS[self.ch.pick("req_kind", len(REQUEST_KINDS))]
+            before = self.snapshot()
+            e = self.try_request(kind)
+            for m in self.monitors:
+                m.on_request(self, kind, e, before)
+            if e is None:
+                self.offers()
+        if p.crash and self.ch.flag("crash%d" % b):
             self.crash()
 
     def run(self):
@@ -378,6 +417,10 @@ class Env(object):
             m.on_end(self, complete)
         return self.status()
 
+    def snapshot(self):
+        """The persisted form, canonically serialised (what a provider would write to its store)."""
+        return json.dumps(self.c.serialize(), sort_keys=True)
+
     # ---- observations ----------------------------------------------------------------
     def executed(self):
         """Multiset of task executions recorded by the conductor (engine commands excluded)."""
@@ -391,3 +434,47 @@ class Env(object):
             "history": " ".join(self.log),
             "status": self.status(),
         }
+
+
+class Unschedulable(Exception):
+    pass
+
+
+def completion_script(env):
+    """The order and outcomes in which actions reported in a finished run (for twin runs)."""
+    return list(env.script)
+
+
+def run_script(env, script):
+    """Drive env through the given completion order with no control requests."""
+    env.start()
+    for label, visit, status, result in script:
+        idx = None
+        for i, a in enumerate(env.inflight):
+            if a.label() == label and a.visit == visit:
+                idx = i
+                break
+        if idx is None:
+            raise Unschedulable("%s#%d is not in flight in the twin run (in flight: %s) | twin history: %s" % (label, visit, [a.label() for a in env.inflight], " ".join(env.log)))
+        env.report(idx, status, result)
+        env.step += 1
+        env.offers()
+    complete = not env.inflight
+    if complete:
+        for m in env.monitors:
+            m.on_quiescent(env)
+        env.render_output()
+    for m in env.monitors:
+        m.on_end(env, complete)
+    return complete
+
+
+def outcome(env):
+    """What a user observes at the end of a run."""
+    errs = sorted(json.dumps(e, sort_keys=True) for e in env.c.errors)
+    return {
+        "status": env.status(),
+        "executed": env.executed(),
+        "errors": errs,
+        "output": env.c.get_workflow_output(),
+    }
